@@ -59,3 +59,61 @@ func oracleC11Source(res *Result) {
 		}
 	}
 }
+
+//go:noinline
+func deepNew(n int) error {
+	if n == 0 {
+		return errors.New("deep origin")
+	}
+	return deepNew(n - 1)
+}
+
+//go:noinline
+func deepPkgNew(n int) error {
+	if n == 0 {
+		return pkgErr.WithStack(fmt.Errorf("deep pkg origin"))
+	}
+	return deepPkgNew(n - 1)
+}
+
+// oracleC11DeepStacks: stacks captured under 10 … 70 frames (the library records at most 32): every
+// frame of every reportable stack trace is the same before and after hops.
+func oracleC11DeepStacks(res *Result) {
+	c := &Case{ID: "deep-stacks", Cmd: L(Sym("deep-stacks"))}
+	frames := func(e error) string {
+		var sb []byte
+		for l := e; l != nil; l = errors.UnwrapOnce(l) {
+			st := errors.GetReportableStackTrace(l)
+			if st == nil {
+				continue
+			}
+			sb = append(sb, fmt.Sprintf("[%d frames]", len(st.Frames))...)
+			for _, f := range st.Frames {
+				sb = append(sb, fmt.Sprintf("%s|%s|%d;", f.Function, f.Filename, f.Lineno)...)
+			}
+		}
+		return string(sb)
+	}
+	for _, depth := range []int{10, 25, 31, 32, 33, 40, 70} {
+		for _, sh := range []namedErr{
+			{"New", deepNew(depth)},
+			{"pkg WithStack", deepPkgNew(depth)},
+			{"Wrap(New)", errors.Wrap(deepNew(depth), "ctx")},
+		} {
+			want := frames(sh.e)
+			for k := 1; k <= 2; k++ {
+				res.OracleEvals["C11.deep_stack_frames"]++
+				d, ok := hopsReal(sh.e, k)
+				if !ok || d == nil {
+					res.fail(c, "C11.deep_stack_frames", sh.name+": hop panics", "C11:deep-stack:panic")
+					break
+				}
+				if got := frames(d); got != want {
+					i := firstDiff(got, want)
+					res.fail(c, "C11.deep_stack_frames", fmt.Sprintf("%s under %d frames: the reportable stack frames differ after %d hop(s) at byte %d: %q vs %q", sh.name, depth, k, i, near(got, i), near(want, i)), "C11:deep-stack")
+					break
+				}
+			}
+		}
+	}
+}
